@@ -271,7 +271,7 @@ func (s *Service) UnmarshalJSON(data []byte) error {
 	s.active = NewLoadBalancer(activeTargets)
 	s.active.MarkAllHealthy()
 
-	if len(ms.RolloutTargets) > 0 {
+	if ms.RolloutTargets != nil {
 		rolloutTargets, err := NewTargetList(ms.RolloutTargets, ms.TargetOptions)
 		if err != nil {
 			return err
